@@ -340,7 +340,7 @@ class Interp(ExprMixin, CallMixin):
 
     def s_Return(self, s, st, frame):
         v = self.eval(s.value, st, frame) if s.value is not None else t("None", const=None)
-        v = v.with_deps(st.ctrl)
+        v = v.with_deps(st.ctrl | st.xctrl)
         self.ev(frame, st, "ret", s, value=v)
         frame.returns.append((v, st.copy()))
         st.reachable = False
@@ -460,7 +460,8 @@ class Interp(ExprMixin, CallMixin):
             out.ctrl = st.ctrl | (out.ctrl - o1.ctrl - o2.ctrl)
             out.ctrl = st.ctrl
         else:
-            out.ctrl = st.ctrl | c.deps
+            out.ctrl = st.ctrl
+            out.xctrl = out.xctrl | c.deps
         return out
 
     def _loop(self, s, st, frame, head_fn):
